@@ -867,6 +867,12 @@ def run(ctx):
       "with a gfapy.Error"]
   cases = list(cases_1to2_links(ops, lens, maxops, ctx.quick)) + \
       list(cases_1to2_containments(ops, lens, maxops, ctx.quick)) + \
+      (  # GFA1-only CIGAR operations (=, X, S, H, N): quick keeps the complete
+         # family of <= 2 operations of length 1 over the full GFA1 alphabet
+         [c for c in cases_1to2_links("MIDNSHPX=", (1,), 2, True)
+          if "gfa1-only" in c["cell"]] +
+         [c for c in cases_1to2_containments("MIDNSHPX=", (1,), 2, True)
+          if "gfa1-only" in c["cell"]] if ctx.quick else []) + \
       list(cases_1to2_paths(ctx.quick)) + \
       list(cases_2to1_edges(ctx.quick)) + list(cases_2to1_other()) + \
       list(cases_2to1_paths())
